@@ -35,6 +35,7 @@ void vf_thread_run(int i);
 void vf_cond_pick(int mode);        // whom notify_one wakes among the parked threads: 0 lowest index, 1 highest index
 // lock discipline (C03 b): obj is protected by the std::mutex at lock from now on (symbolic build with -DVF_DISCIPLINE only)
 void vf_protect(void *obj, unsigned long size, void *lock);
+void vf_protect_obj(void *obj, unsigned long size, void *lock);   // the object only, heap blocks allocated under the lock are not tracked
 void vf_unprotect_all(void);
 // lock-region interleaving: the k-th std::mutex acquisition from now on first runs fn() (another thread's operation)
 void vf_inject_arm(void (*fn)(void), int k);
